@@ -342,6 +342,8 @@ func makeField(v reflect.Value, params fieldParameters) (encoder, error) {
 			}
 
 			berType.value = stringEncoder(v.String())
+		default:
+			return nil, fmt.Errorf("ber: unsupported type %s", fieldType)
 		}
 	}
 	tag.len = int64(berType.value.Len())
